@@ -21,6 +21,7 @@ def run(prog, tier):
     CR.truncating_write_rule(prog, res)
     CR.overstrict_guard_rule(prog, res)
     CR.primitive_read_rule(prog, res)
+    CR.unsigned_dest_rule(prog, res)
     CR.char_range_widening_rule(prog, res)
     CR.patch_guard_rule(prog, res)
     return res
